@@ -668,6 +668,10 @@ CLAIMED["C09"]["text"] += (" Round 9 (covgap): sf_perror, sf_error_str and sf_wr
                            "{write, rdwr, read}, judged by Sf.AbsTwin.twinOk.")
 
 
+CLAIMED["C14"]["text"] += (" Round 9 (covgap): sf_open ('-') = psf_set_stdio AS A ROUTE (harness routes stdio / stdiopipe: a scratch file or a pipe behind descriptor 0, a scratch file behind descriptor 1; vlib/c14stdio.py: every writable format except SD2 -- written bytes and "
+                           "results equal the virtual-I/O route, reads equal, pipe = sequential vio read, SFM_RDWR refused) found KF-C14-STDIO-CLOSE: sf_close (and a failed open) closed the process's stdin / stdout, descriptors the library never opened (the POSIX branch of psf_set_stdio "
+                           "left do_not_close_descriptor clear, the Windows-API branch sets it). REPAIRED (two lines); Sf.RoutesStdio `setStdio` / `setStdioOld`, SfProps/C14Stdio.lean: stdio_close_leaves_descriptor (all handler results, all OS answers), stdio_close_old_rule, setStdio_is_openPath.")
+
 def main():
     checks = []
     for p in PROPS:
